@@ -24,6 +24,11 @@ type GenOpts struct {
 	ManyLabels  bool // one label per line
 }
 
+// Legacy switches off the strata that expose defects of gmars repaired late (repairs 29-35).  It is only set when a
+// seeded change has to be tested on a commit that predates those repairs (tools/seedtest.sh), where every one of
+// these strata would fire whatever the seeded change is.
+var Legacy bool
+
 // the pools contain names that differ from a name of another pool only by letter case (gap/Gap, step/Step/STEP,
 // n/N, i/I, dist/DIST): symbols are case-sensitive, so these are different symbols; for the same reason the lower-case
 // spellings of the predefined constants (coresize, maxlength, ...) are ordinary user names
@@ -444,7 +449,7 @@ func (g *genState) genForProgram(p *Prog, allLabels []string, n int, pending []I
 			default:
 				f.Count = Bin{'+', Bin{'%', q, Lit{V: 3}}, Lit{V: r.Intn(2)}}
 			}
-		} else if r.Intn(12) == 0 {
+		} else if r.Intn(12) == 0 && !Legacy {
 			// the predefined constants in a count (small values by construction: x % k, x / x)
 			cn := Ref{pick(r, []string{"CORESIZE", "MAXLENGTH", "MAXPROCESSES", "MINDISTANCE"})}
 			switch r.Intn(3) {
@@ -473,6 +478,9 @@ func (g *genState) genForProgram(p *Prog, allLabels []string, n int, pending []I
 				f.Dead = [][]string{{"end"}, {" END 2"}, {"end", "dat 1, 2"}, {"mov 0, 1", " end"}, {"dat undefined_in_dead_code"},
 					{"----------------------------", "2 imps and a stone, disabled for now", "(see the notes)"}, {"1, 2, 3", "#$@ !!", "mov mov mov"},
 					{";assert 0", "dat 0"}, {";assert CORESIZE == 1", ";assert undefined_in_dead_code"}, {"x equ 1/0", "org 99999"}}[r.Intn(10)]
+				if Legacy {
+					f.Dead = [][]string{{"end"}, {" END 2"}, {"end", "dat 1, 2"}, {"mov 0, 1", " end"}, {"dat undefined_in_dead_code"}}[r.Intn(5)]
+				}
 				if r.Intn(3) == 0 {
 					// a lot of old code fenced off (more lines than a small core has cells)
 					for k, n := 0, 5+r.Intn(60); k < n; k++ {
@@ -499,7 +507,7 @@ func (g *genState) genForProgram(p *Prog, allLabels []string, n int, pending []I
 				f.Body = append(f.Body, genBlock(depth+1, mult*max(1, cnt)))
 			} else {
 				ins := g.instr()
-				if nonUnit == 0 && r.Intn(2) == 0 {
+				if nonUnit == 0 && r.Intn(2) == 0 && !Legacy {
 					// a body that is copied exactly once may define labels of its own: after the expansion they are
 					// ordinary labels (on the instruction, on a line of their own, with a colon - the renderer decides)
 					if l, ok := takeLabel(); ok {
